@@ -179,6 +179,81 @@ Definition reingold_tilford (p : params) (t : tree) : ctree :=
   third (second (p_ls p) (p_xo p) (p_yo p) (height t) 1%nat 0 (first_pass (p_ss p) (p_sts p) t)).
 
 (* ---------------------------------------------------------------------------------------------
+   Running the layout again on a tree that was laid out before.
+
+   What the three passes read back from an earlier run: only `shift` of non-root nodes
+   (plot.py:202 get_attr("shift", _shift) and 226 sibling.get_attr("shift", 0)).  x and mod are
+   written (200-201) before anything reads them in the same run (left_sibling.x 191, the children
+   in _get_midpoint_of_children, the contour nodes in _get_subtree_shift are all processed earlier
+   in the same post-order traversal); the root's x/mod/shift are overwritten (178-181); y is
+   write-only.  So the state a run leaves behind is the `shift` of every node = dsh in the
+   first-pass result, and a run on a previously laid-out tree is the same loop `place`, started
+   with those shifts as the pending shifts instead of zeros.  A node without the attribute (a
+   fresh node) counts as shift 0. *)
+Fixpoint fpd (ss sts : Q) (d : dtree) : list dtree :=
+  match d with
+  | D _ _ _ ks => place ss sts [] (map (fpd ss sts) ks) (map dsh ks)
+  end.
+
+Definition first_pass_d (ss sts : Q) (d : dtree) : dtree :=
+  let ks := fpd ss sts d in D (midpoint ks) 0 0 ks.
+
+(* a tree that was never laid out *)
+Fixpoint zero_d (t : tree) : dtree := match t with T _ _ _ ks => D 0 0 0 (map zero_d ks) end.
+Fixpoint tree_of_d (d : dtree) : tree := match d with D _ _ _ ks => T None [] [] (map tree_of_d ks) end.
+
+(* one call of reingold_tilford on a tree carrying the annotations `prior`:
+   (annotations left behind, coordinates) *)
+Definition layout (p : params) (prior : dtree) : dtree * ctree :=
+  let f := first_pass_d (p_ss p) (p_sts p) prior in
+  (f, third (second (p_ls p) (p_xo p) (p_yo p) (dheight prior) 1%nat 0 f)).
+
+(* the annotations after calling reingold_tilford with the parameter sets ps, in this order *)
+Fixpoint reruns (ps : list params) (prior : dtree) : dtree :=
+  match ps with
+  | [] => prior
+  | p :: r => reruns r (fst (layout p prior))
+  end.
+
+(* coordinates after laying the fresh tree t out with ps (in this order) and then with p *)
+Definition rt_again (ps : list params) (p : params) (t : tree) : ctree :=
+  snd (layout p (reruns ps (zero_d t))).
+
+(* structural changes between two calls (the annotations travel with the node objects) *)
+Inductive edit :=
+| ENone
+| ERev (at_ : list nat)               (* node.children = reversed(node.children) *)
+| EAdd (at_ : list nat) (i : nat).    (* a fresh leaf inserted as i-th child *)
+
+Fixpoint edit_at (f : list dtree -> list dtree) (path : list nat) (d : dtree) : dtree :=
+  match d with
+  | D x m sh ks =>
+      match path with
+      | [] => D x m sh (f ks)
+      | i :: path' =>
+          D x m sh ((fix go (j : nat) (l : list dtree) : list dtree :=
+                       match l with
+                       | [] => []
+                       | k :: r => (if Nat.eqb j i then edit_at f path' k else k) :: go (S j) r
+                       end) 0%nat ks)
+      end
+  end.
+
+Definition apply_edit (e : edit) (d : dtree) : dtree :=
+  match e with
+  | ENone => d
+  | ERev path => edit_at (@rev dtree) path d
+  | EAdd path i => edit_at (fun ks => firstn i ks ++ dzero :: skipn i ks) path d
+  end.
+
+(* a sequence of (edit, parameters): edit, then lay out; returns the last state *)
+Fixpoint run_steps (st : dtree * ctree) (steps : list (edit * params)) : dtree * ctree :=
+  match steps with
+  | [] => st
+  | (e, p) :: r => run_steps (layout p (apply_edit e (fst st))) r
+  end.
+
+(* ---------------------------------------------------------------------------------------------
    The witness of known finding K1:  r(a, b(c, d(e)), f(g(h, i)))  *)
 Definition leaf : tree := T None [] [] [].
 Definition nd (ks : list tree) : tree := T None [] [] ks.
